@@ -82,3 +82,206 @@ theorem graph_nodes_exact (ns : List GNode) (roots : List Nat) (fuel : Nat) (res
 #print axioms graph_nodes_exact
 
 end GraphM
+
+namespace GraphM
+/-! extension (C16): the expansion loop with the `HashSet`s made explicit as duplicate-free lists,
+    and its termination: the loop ends within `table size + 2` rounds, because every round but the
+    last adds at least one new node index below the table size -/
+
+/-- duplicate-free list with the same members -/
+def dedupN : List Nat → List Nat
+  | [] => []
+  | x :: xs => if (dedupN xs).contains x then dedupN xs else x :: dedupN xs
+
+theorem mem_dedupN : ∀ (l : List Nat) (x : Nat), x ∈ dedupN l ↔ x ∈ l := by
+  intro l
+  induction l with
+  | nil => intro x; simp [dedupN]
+  | cons y ys ih =>
+    intro x
+    unfold dedupN
+    by_cases h : (dedupN ys).contains y = true
+    · rw [if_pos h]
+      have hy : y ∈ ys := (ih y).mp (by simpa using h)
+      constructor
+      · intro hx; exact List.mem_cons_of_mem _ ((ih x).mp hx)
+      · intro hx
+        rcases List.mem_cons.mp hx with hx | hx
+        · subst hx; exact (ih x).mpr hy
+        · exact (ih x).mpr hx
+    · rw [if_neg h]
+      simp only [List.mem_cons, ih x]
+
+theorem nodup_dedupN : ∀ l : List Nat, (dedupN l).Nodup := by
+  intro l
+  induction l with
+  | nil => simp [dedupN]
+  | cons y ys ih =>
+    unfold dedupN
+    by_cases h : (dedupN ys).contains y = true
+    · rw [if_pos h]; exact ih
+    · rw [if_neg h]
+      exact List.nodup_cons.mpr ⟨by simpa using h, ih⟩
+
+/-- the `while !new_node_indices.is_empty()` loop on sets; `none` = fuel exhausted -/
+def expandD (ns : List GNode) : Nat → List Nat → List Nat → Option (List Nat)
+  | 0, _, _ => none
+  | fuel+1, seen, new =>
+    if new.isEmpty then some seen else
+    let seen' := seen ++ new
+    let new' := dedupN ((seen'.flatMap (children ns)).filter (fun c => !seen'.contains c))
+    expandD ns fuel seen' new'
+
+/-- when the loop ends, the node set is exactly the reachable set -/
+theorem expandD_spec (ns : List GNode) (roots : List Nat) : ∀ (fuel : Nat) (seen new res : List Nat),
+    (∀ x ∈ seen, Reachable ns roots x) → (∀ x ∈ new, Reachable ns roots x) →
+    (∀ r ∈ roots, r ∈ seen ∨ r ∈ new) →
+    (∀ i ∈ seen, ∀ c ∈ children ns i, c ∈ seen ∨ c ∈ new) →
+    expandD ns fuel seen new = some res → ∀ x, x ∈ res ↔ Reachable ns roots x := by
+  intro fuel
+  induction fuel with
+  | zero => intro _ _ _ _ _ _ _ h; cases h
+  | succ f ih =>
+    intro seen new res hs hn hr hc h
+    unfold expandD at h
+    by_cases he : new.isEmpty = true
+    · rw [if_pos he] at h
+      cases h
+      have hnil : new = [] := by simpa using he
+      subst hnil
+      intro x
+      constructor
+      · exact hs x
+      · intro hx
+        induction hx with
+        | root r hr' => rcases hr r hr' with h | h; exact h; cases h
+        | step i c _ hci ihx => rcases hc i ihx c hci with h | h; exact h; cases h
+    · rw [if_neg he] at h
+      apply ih (seen ++ new) _ res _ _ _ _ h
+      · intro x hx
+        rcases List.mem_append.mp hx with h' | h'
+        · exact hs x h'
+        · exact hn x h'
+      · intro x hx
+        rw [mem_dedupN, List.mem_filter, List.mem_flatMap] at hx
+        obtain ⟨⟨i, hi, hci⟩, _⟩ := hx
+        have hri : Reachable ns roots i := by
+          rcases List.mem_append.mp hi with h' | h'
+          · exact hs i h'
+          · exact hn i h'
+        exact Reachable.step i x hri hci
+      · intro r hr'
+        left
+        rcases hr r hr' with h' | h'
+        · exact List.mem_append_left _ h'
+        · exact List.mem_append_right _ h'
+      · intro i hi c hci
+        by_cases hin : c ∈ seen ++ new
+        · left; exact hin
+        · right
+          rw [mem_dedupN, List.mem_filter, List.mem_flatMap]
+          exact ⟨⟨i, hi, hci⟩, by simpa using hin⟩
+
+/-- pigeonhole: a duplicate-free list of numbers below `n` has at most `n` elements -/
+theorem length_le_of_nodup_lt : ∀ (n : Nat) (l : List Nat), l.Nodup → (∀ x ∈ l, x < n) → l.length ≤ n := by
+  intro n
+  induction n with
+  | zero =>
+    intro l _ h
+    cases l with
+    | nil => simp
+    | cons x xs => exact absurd (h x (List.mem_cons_self ..)) (Nat.not_lt_zero _)
+  | succ n ih =>
+    intro l hnd h
+    have hlen : ∀ (l : List Nat), l.Nodup → l.length ≤ (l.filter (fun x => x != n)).length + 1 := by
+      intro l
+      induction l with
+      | nil => intro _; simp
+      | cons x xs ihx =>
+        intro hnd
+        have hnd' := List.nodup_cons.mp hnd
+        by_cases hx : x = n
+        · have hall : xs.filter (fun y => y != n) = xs := by
+            apply List.filter_eq_self.mpr
+            intro y hy
+            have : y ≠ n := by intro hyn; subst hyn; subst hx; exact hnd'.1 hy
+            simpa using this
+          simp [List.filter_cons, hx, hall]
+        · have := ihx hnd'.2
+          simp only [List.filter_cons, bne_iff_ne, ne_eq, hx, not_false_eq_true, if_true, List.length_cons]
+          omega
+    have hf : (l.filter (fun x => x != n)).length ≤ n := by
+      apply ih
+      · exact List.Pairwise.filter _ hnd
+      · intro x hx
+        rw [List.mem_filter] at hx
+        have h1 := h x hx.1
+        have h2 : x ≠ n := by simpa using hx.2
+        omega
+    have := hlen l hnd
+    omega
+
+/-- every index stored in the table and every root is below the table size -/
+def InRange (ns : List GNode) (roots : List Nat) : Prop :=
+  (∀ r ∈ roots, r < ns.length) ∧ (∀ (i : Nat) (n : GNode), ns[i]? = some n → n.lo < ns.length ∧ n.hi < ns.length)
+
+theorem children_lt (ns : List GNode) (hr : ∀ (i : Nat) (n : GNode), ns[i]? = some n → n.lo < ns.length ∧ n.hi < ns.length)
+    (i c : Nat) (hc : c ∈ children ns i) : c < ns.length := by
+  unfold children at hc
+  cases hn : ns[i]? with
+  | none => rw [hn] at hc; cases hc
+  | some n =>
+    rw [hn] at hc
+    simp only [List.mem_cons, List.not_mem_nil, or_false] at hc
+    rcases hc with h | h
+    · rw [h]; exact (hr i n hn).1
+    · rw [h]; exact (hr i n hn).2
+
+/-- the fuel bound: the loop provably ends -/
+theorem expandD_terminates (ns : List GNode)
+    (hr : ∀ (i : Nat) (n : GNode), ns[i]? = some n → n.lo < ns.length ∧ n.hi < ns.length) :
+    ∀ (fuel : Nat) (seen new : List Nat), (seen ++ new).Nodup → (∀ x ∈ seen ++ new, x < ns.length) →
+      ns.length - seen.length < fuel → ∃ res, expandD ns fuel seen new = some res := by
+  intro fuel
+  induction fuel with
+  | zero => intro _ _ _ _ h; exact absurd h (Nat.not_lt_zero _)
+  | succ f ih =>
+    intro seen new hnd hlt hfuel
+    unfold expandD
+    by_cases he : new.isEmpty = true
+    · rw [if_pos he]; exact ⟨seen, rfl⟩
+    · rw [if_neg he]
+      have hne : new ≠ [] := by simpa using he
+      have hlen : (seen ++ new).length ≤ ns.length := length_le_of_nodup_lt _ _ hnd hlt
+      have hpos : 0 < new.length := List.length_pos_iff.mpr hne
+      apply ih
+      · rw [List.nodup_append]
+        refine ⟨hnd, nodup_dedupN _, ?_⟩
+        intro a ha b hb
+        rw [mem_dedupN, List.mem_filter] at hb
+        intro hab
+        subst hab
+        have : ¬ a ∈ seen ++ new := by simpa using hb.2
+        exact this ha
+      · intro x hx
+        rcases List.mem_append.mp hx with h | h
+        · exact hlt x h
+        · rw [mem_dedupN, List.mem_filter, List.mem_flatMap] at h
+          obtain ⟨⟨i, _, hci⟩, _⟩ := h
+          exact children_lt ns hr i x hci
+      · rw [List.length_append] at hlen ⊢
+        omega
+
+/-- **the node-set loop ends and computes exactly the reachable set** -/
+theorem expandD_total (ns : List GNode) (roots : List Nat) (h : InRange ns roots) :
+    ∃ res, expandD ns (ns.length + 2) [] (dedupN roots) = some res ∧ ∀ x, x ∈ res ↔ Reachable ns roots x := by
+  obtain ⟨res, hres⟩ := expandD_terminates ns h.2 (ns.length + 2) [] (dedupN roots)
+    (by simpa using nodup_dedupN roots)
+    (by intro x hx; simp only [List.nil_append, mem_dedupN] at hx; exact h.1 x hx)
+    (by simp)
+  refine ⟨res, hres, ?_⟩
+  exact expandD_spec ns roots _ [] (dedupN roots) res (fun _ h => by cases h)
+    (fun x hx => Reachable.root x ((mem_dedupN roots x).mp hx))
+    (fun r hr => Or.inr ((mem_dedupN roots r).mpr hr)) (fun _ h => by cases h) hres
+
+end GraphM
